@@ -23,6 +23,20 @@ type tracer struct {
 	facts  []Cond // branch facts assumed by the phi edges taken so far (within one function)
 	factFn *ssa.Function
 	keys   map[string]bool // when non-nil: origins of the keys of the map lookups passed through
+	evalOf bool            // describe the result of evaluating an AST node as "eval-of <origins of the node>"
+}
+
+// originsEval: like origins, but a call whose first argument is an AST node (Eval, EvalUpdate, a function value of that
+// shape) is described by the node it evaluates instead of being traced into.
+func (e *Engine) originsEval(v ssa.Value) []string {
+	t := &tracer{e: e, seen: map[string]bool{}, out: map[string]bool{}, evalOf: true}
+	t.trace(v, nil, 0, "")
+	var out []string
+	for k := range t.out {
+		out = append(out, k)
+	}
+	sort.Strings(out)
+	return out
 }
 
 // originsAndKeys: like origins, and additionally the origins of every map key used by a lookup on the way (resolved in
@@ -234,9 +248,26 @@ func (t *tracer) trace(v ssa.Value, ctx []callCtx, depth int, prefix string) {
 						}
 					}
 				}
-				// whole-struct stores (param copies)
+				// whole-struct stores (param copies): through to the literal that built the struct, when there is one
 				for _, st := range storesTo(al) {
-					t.trace(st.Val, ctx, depth+1, prefix+"field "+tn+"."+f.Name()+" of ")
+					resolved := false
+					var lits []structLit
+					if t.evalOf {
+						lits = t.structLiterals(st.Val, ctx, 0)
+					}
+					for _, lit := range lits {
+						for _, r := range refsOf(lit.al) {
+							if fa2, ok := r.(*ssa.FieldAddr); ok && fa2.Field == a.Field {
+								for _, st2 := range storesTo(fa2) {
+									t.trace(st2.Val, lit.ctx, depth+1, prefix)
+									resolved = true
+								}
+							}
+						}
+					}
+					if !resolved {
+						t.trace(st.Val, ctx, depth+1, prefix+"field "+tn+"."+f.Name()+" of ")
+					}
 					found = true
 				}
 				if found {
@@ -293,6 +324,24 @@ func (t *tracer) trace(v ssa.Value, ctx []callCtx, depth int, prefix string) {
 		if n != nil {
 			tn = n.Obj().Name()
 		}
+		// a small struct built by a literal somewhere up or down the call chain (operandPair{left: l, right: r} returned
+		// by a helper, handed to a method by value): follow the field to what the literal put there
+		if lits := t.structLiterals(x.X, ctx, 0); t.evalOf && len(lits) > 0 {
+			found := false
+			for _, lit := range lits {
+				for _, r := range refsOf(lit.al) {
+					if fa, ok := r.(*ssa.FieldAddr); ok && fa.Field == x.Field {
+						for _, st := range storesTo(fa) {
+							t.trace(st.Val, lit.ctx, depth+1, prefix)
+							found = true
+						}
+					}
+				}
+			}
+			if found {
+				return
+			}
+		}
 		t.trace(x.X, ctx, depth+1, prefix+"field "+tn+"."+f.Name()+" of ")
 	case *ssa.Index:
 		idx := "?"
@@ -335,6 +384,18 @@ func (t *tracer) trace(v ssa.Value, ctx []callCtx, depth int, prefix string) {
 
 func (t *tracer) traceCall(c *ssa.Call, resIdx int, ctx []callCtx, depth int, prefix string) {
 	e := t.e
+	if t.evalOf && !isBuiltin(c) && len(c.Call.Args) >= 1 && !c.Call.IsInvoke() {
+		a0 := c.Call.Args[0]
+		if c.Call.StaticCallee() != nil && c.Call.StaticCallee().Signature.Recv() != nil && len(c.Call.Args) >= 2 {
+			a0 = c.Call.Args[1]
+		}
+		if nt := namedOf(a0.Type()); nt != nil && e.roleOf(nt.Obj().Pkg()) == "lang" && (nt.Obj().Name() == "Node" || nt.Obj().Name() == "Expression") {
+			if _, isIface := a0.Type().Underlying().(*types.Interface); isIface {
+				t.trace(a0, ctx, depth+1, prefix+"eval-of ")
+				return
+			}
+		}
+	}
 	if isBuiltin(c) {
 		name := staticCalleeName(c)
 		if name == "builtin.append" {
@@ -630,4 +691,83 @@ func isPtrHelper(g *ssa.Function) bool {
 		}
 	}
 	return false
+}
+
+type structLit struct {
+	al  *ssa.Alloc
+	ctx []callCtx
+}
+
+// structLiterals: the local allocations (with the calling context they live in) a struct VALUE v can have been loaded
+// from: directly, as the argument bound to a by-value parameter, or as what a package-local callee returns.
+func (t *tracer) structLiterals(v ssa.Value, ctx []callCtx, depth int) []structLit {
+	if depth > 5 {
+		return nil
+	}
+	switch x := strip(v).(type) {
+	case *ssa.UnOp:
+		if al, ok := x.X.(*ssa.Alloc); ok && x.Op == token.MUL {
+			hasFieldStore := false
+			for _, r := range refsOf(al) {
+				if fa, ok := r.(*ssa.FieldAddr); ok && len(storesTo(fa)) > 0 {
+					hasFieldStore = true
+				}
+			}
+			if hasFieldStore {
+				return []structLit{{al, ctx}}
+			}
+			var out []structLit
+			for _, st := range storesTo(al) {
+				out = append(out, t.structLiterals(st.Val, ctx, depth+1)...)
+			}
+			return out
+		}
+	case *ssa.Parameter:
+		rv, rctx := resolveParam(x, ctx)
+		if rv != ssa.Value(x) {
+			return t.structLiterals(rv, rctx, depth+1)
+		}
+		var out []structLit
+		idx := -1
+		for i, p := range x.Parent().Params {
+			if p == x {
+				idx = i
+			}
+		}
+		for _, c := range t.e.callersOf(x.Parent()) {
+			args := c.Common().Args
+			if idx >= 0 && idx < len(args) {
+				out = append(out, t.structLiterals(args[idx], nil, depth+1)...)
+			}
+		}
+		return out
+	case *ssa.Extract:
+		if c, ok := x.Tuple.(*ssa.Call); ok {
+			return t.structLiteralsOfCall(c, x.Index, ctx, depth)
+		}
+	case *ssa.Call:
+		return t.structLiteralsOfCall(x, 0, ctx, depth)
+	case *ssa.Phi:
+		var out []structLit
+		for _, ed := range x.Edges {
+			out = append(out, t.structLiterals(ed, ctx, depth+1)...)
+		}
+		return out
+	}
+	return nil
+}
+
+func (t *tracer) structLiteralsOfCall(c *ssa.Call, idx int, ctx []callCtx, depth int) []structLit {
+	g := c.Call.StaticCallee()
+	if g == nil || g.Blocks == nil || t.e.fnRole(g) == "" {
+		return nil
+	}
+	var out []structLit
+	for _, r := range returnsOf(g) {
+		rv := retVals(r)
+		if idx < len(rv) {
+			out = append(out, t.structLiterals(rv[idx], append(append([]callCtx{}, ctx...), callCtx{c, g}), depth+1)...)
+		}
+	}
+	return out
 }
